@@ -1,5 +1,201 @@
-import OsmVerif.Model.Convert
+import OsmVerif.Props.C16
+/-!
+# C17 — GeoJSON conversion maps elements to features exactly; options only subtract
+
+Theorems about `Model.Convert` (hand-written model of osmgeojson/convert.go, tied to the code by the
+differential stream through `osmgeojson.Convert` under all option combinations and by an independent
+element → feature oracle).
+-/
 namespace OsmVerif.Props.C17
-open OsmVerif.Model.Convert
-theorem tagMap_nil : tagMap [] = [] := rfl
+open OsmVerif.Model.Geo OsmVerif.Model.Convert OsmVerif.Props.C16
+
+/-! ## at most one feature per input element -/
+
+theorem relationPass_length (o : Opts) (d : Data) : (relationPass o d).1.length ≤ d.relations.length := by
+  unfold relationPass
+  suffices h : ∀ (rs : List RelationE) (st : List Feature × Skip),
+      (rs.foldl (fun (st : List Feature × Skip) r =>
+        let tt := findTag r.tags "type"
+        if tt = "route" then
+          let (f, s) := buildRoute o d r st.2
+          (st.1 ++ f.toList, s)
+        else if tt = "multipolygon" ∨ tt = "boundary" then
+          let (f, s) := buildPolygon o d r st.2
+          (st.1 ++ f.toList, s)
+        else st) st).1.length ≤ st.1.length + rs.length by
+    simpa using h d.relations ([], [])
+  intro rs
+  induction rs with
+  | nil => intro st; simp
+  | cons r rest ih =>
+    intro st
+    simp only [List.foldl_cons, List.length_cons]
+    refine Nat.le_trans (ih _) ?_
+    have hopt : ∀ f : Option Feature, f.toList.length ≤ 1 := by intro f; cases f <;> simp
+    split
+    · have := hopt (buildRoute o d r st.2).1
+      simp only [List.length_append]; omega
+    · split
+      · have := hopt (buildPolygon o d r st.2).1
+        simp only [List.length_append]; omega
+      · omega
+
+/-- **at most one feature per input element**: each relation, each way and each node gives rise to at most one -/
+theorem one_feature_per_element (o : Opts) (isP : WayE → Bool) (d : Data) :
+    (convert o isP d).length ≤ d.relations.length + d.ways.length + d.nodes.length := by
+  unfold convert
+  simp only [List.length_append]
+  have h1 := relationPass_length o d
+  have h2 := List.length_filterMap_le (wayPass o d isP (relationPass o d).2) d.ways
+  have h3 := List.length_filterMap_le (nodePass o d) d.nodes
+  omega
+
+/-! ## nodes -/
+
+/-- **a point for every located node that is not part of a way, or has an interesting tag, or is a relation member** -/
+theorem node_feature_iff (o : Opts) (d : Data) (n : NodeE) :
+    (nodePass o d n).isSome ↔
+      ¬ (n.lon = 0 ∧ n.lat = 0 ∧ n.md.version = 0) ∧
+      (isWayMember d n.id = false ∨ membership o d .node n.id ≠ [] ∨ hasInterestingTags n.tags none = true) := by
+  unfold nodePass nodeToFeature
+  by_cases hw : isWayMember d n.id = true <;> by_cases hm : membership o d .node n.id = [] <;>
+    by_cases ht : hasInterestingTags n.tags none = true <;>
+    by_cases hl : (n.lon = 0 ∧ n.lat = 0 ∧ n.md.version = 0) <;> simp [hw, hm, ht, hl]
+
+/-- the node's feature carries its type, id, location and tags -/
+theorem node_feature_content (o : Opts) (d : Data) (n : NodeE) (f : Feature) (h : nodePass o d n = some f) :
+    f.kind = "node" ∧ f.id = n.id ∧ f.geom = .point (n.lon, n.lat) ∧ f.tags = tagMap n.tags ∧ f.idSet = !o.noID := by
+  unfold nodePass nodeToFeature at h
+  split at h
+  · cases h
+  · split at h
+    · cases h
+    · cases h; exact ⟨rfl, rfl, rfl, rfl, rfl⟩
+
+theorem membership_congr (o o' : Opts) (d : Data) (t : MType) (id : Int)
+    (h : o.noRelationMembership = o'.noRelationMembership) : membership o d t id = membership o' d t id := by
+  unfold membership
+  rw [h]
+
+/-- the membership of a node does not depend on the relation-membership option (only way and relation
+    members are left out of the map by it) -/
+theorem membership_node_indep (o o' : Opts) (d : Data) (id : Int) :
+    membership o d .node id = membership o' d .node id := by
+  unfold membership
+  congr 1; funext r
+  congr 1; funext m
+  by_cases hn : m.type = .node
+  · simp [hn]
+  · have : ¬ (m.type = MType.node ∧ m.ref = id) := fun h => hn h.1
+    by_cases h1 : o.noRelationMembership = true <;> by_cases h2 : o'.noRelationMembership = true <;>
+      by_cases h3 : (m.type = MType.way ∧ (findWay d m.ref).isNone = true) <;> simp [hn, h1, h2, h3, this]
+
+/-! ## ways -/
+
+/-- **a line, or for area ways a closed polygon, over the way's resolvable node coordinates in order** -/
+theorem way_feature_geometry (o : Opts) (d : Data) (isP : WayE → Bool) (w : WayE) (f : Feature)
+    (h : wayToFeature o d isP w = some f) :
+    f.kind = "way" ∧ f.id = w.id ∧ f.tags = tagMap w.tags ∧ f.tainted = (wayToLineString d w).2 ∧
+    (wayToLineString d w).1.length ≥ 2 ∧
+    f.geom = (if isP w then Geom.polygon [reorientOuter (toRing (wayToLineString d w).1)]
+              else Geom.lineString (wayToLineString d w).1) := by
+  unfold wayToFeature at h
+  generalize hls : wayToLineString d w = r at h ⊢
+  obtain ⟨ls, t⟩ := r
+  simp only at h ⊢
+  split at h
+  · cases h
+  · rename_i hlen
+    cases h
+    exact ⟨rfl, rfl, rfl, rfl, by omega, rfl⟩
+
+/-- the ring built for an area way is closed -/
+theorem toRing_closed (ls : List P) (h : 2 ≤ ls.length) : (toRing ls).head? = (toRing ls).getLast? := by
+  unfold toRing
+  have h1 : ¬ ls.length < 2 := by omega
+  simp only [h1, if_false]
+  by_cases hc : ls.head? = ls.getLast?
+  · simp [hc]
+  · simp only [hc, ne_eq, not_false_eq_true, if_true]
+    obtain ⟨a, b, t, rfl⟩ := two_le_split ls h
+    have : ((a :: b :: t) ++ List.take 1 (a :: b :: t)).getLast? = some a := by
+      rw [List.getLast?_append]; simp
+    rw [this]; rfl
+
+/-- … and wound counter-clockwise (when it has area at all) -/
+theorem reorientOuter_ccw (r : List P) (hne : r ≠ []) (hclosed : r.head? = r.getLast?) (harea : area2 r ≠ 0) :
+    ringOrientation (reorientOuter r) = 1 := by
+  obtain ⟨p, t, rfl⟩ := List.exists_cons_of_ne_nil hne
+  have hcl : (p :: t).getLast? = some p := by rw [← hclosed]; rfl
+  unfold reorientOuter
+  by_cases h : ringOrientation (p :: t) = 1
+  · simp [h]
+  · simp only [h, ne_eq, not_false_eq_true, if_true]
+    rw [ringOrientation_eq_sgn] at h ⊢
+    rw [area2_reverse_closed p t hcl]
+    have s1 := sgn_spec (area2 (p :: t))
+    have s2 := sgn_spec (- area2 (p :: t))
+    omega
+
+/-! ## routes -/
+
+theorem mk'_fresh (i : Nat) (o : Int) (l : List P) : (Seg.mk' i o l).line = (Seg.mk' i o l).full := rfl
+
+/-- **a route relation's joined line geometry preserves every segment of its member ways**: every member
+    line is used in exactly one output line (possibly reversed), and each output line has exactly the
+    edges of the member lines it is glued from -/
+theorem route_preserves_segments (lines : List Seg) (h : FreshInput lines) :
+    (((join lines).flatten).map norm).Perm ((compact lines).map norm) ∧ ∀ ms ∈ join lines, Chain ms :=
+  ⟨join_partitions_input lines h, join_preserves_edges lines h⟩
+
+/-! ## options only subtract -/
+
+/-- what the three presentation options may change on a feature -/
+def restrict (o : Opts) (f : Feature) : Feature :=
+  { f with idSet := f.idSet && !o.noID,
+           metaKeys := if o.noMeta then none else f.metaKeys,
+           relations := if o.noRelationMembership then none else f.relations }
+
+/-- **NoID, NoMeta and NoRelationMembership change nothing about nodes but what they document**:
+    the same nodes are converted, with the same type, id, geometry, tags and taint; only the id string,
+    the meta object and the relations list are dropped -/
+theorem node_options_only_subtract (o : Opts) (d : Data) (n : NodeE) :
+    nodePass o d n = (nodePass { o with noID := false, noMeta := false, noRelationMembership := false } d n).map (restrict o) := by
+  unfold nodePass nodeToFeature
+  rw [membership_node_indep o { o with noID := false, noMeta := false, noRelationMembership := false } d n.id]
+  split
+  · rfl
+  · split
+    · rfl
+    · simp only [Option.map_some, restrict, relationsProp, metaProp]
+      have hm : ∀ (h : o.noRelationMembership = false), membership o d .node n.id =
+          membership { o with noID := false, noMeta := false, noRelationMembership := false } d .node n.id :=
+        fun h => membership_congr _ _ d _ _ h
+      congr 1
+      cases hn : o.noID <;> cases hmm : o.noMeta <;> cases hr : o.noRelationMembership <;> simp [hm, hr]
+
+/-- … and the same for ways -/
+theorem way_options_only_subtract (o : Opts) (d : Data) (isP : WayE → Bool) (w : WayE) :
+    wayToFeature o d isP w =
+      (wayToFeature { o with noID := false, noMeta := false, noRelationMembership := false } d isP w).map (restrict o) := by
+  unfold wayToFeature
+  generalize wayToLineString d w = r
+  obtain ⟨ls, t⟩ := r
+  simp only
+  split
+  · rfl
+  · simp only [Option.map_some, restrict, relationsProp, metaProp]
+    have hm : ∀ (h : o.noRelationMembership = false), membership o d .way w.id =
+        membership { o with noID := false, noMeta := false, noRelationMembership := false } d .way w.id :=
+      fun h => membership_congr _ _ d _ _ h
+    congr 1
+    cases hn : o.noID <;> cases hmm : o.noMeta <;> cases hr : o.noRelationMembership <;> simp [hm, hr]
+
+/-! ## non-vacuity -/
+def exData : Data := {
+  nodes := [⟨1, 2, 3, [("name", "x")], { version := 1 }⟩, ⟨2, 5, 5, [], { version := 1 }⟩, ⟨3, 9, 9, [], { version := 1 }⟩],
+  ways := [⟨7, [⟨1, 0, 0⟩, ⟨2, 0, 0⟩], [("highway", "path")], {}⟩],
+  relations := [] }
+example : (convert {} (fun _ => false) exData).map (fun f => (f.kind, f.id)) = [("way", 7), ("node", 1), ("node", 3)] := by decide
+
 end OsmVerif.Props.C17
